@@ -57,7 +57,7 @@ def bodyDefect (r : Route) (k : MethodKind) : Body → Bool
   | .cancel => false
   | .parseFail _ => true
   | .badMeta _ => r != .exchange
-  | .badParams => r != .exchange || k == .exchanger
+  | .badParams _ => r != .exchange || k == .exchanger
 
 /-- the defects of a request class, listed in the reference implementation's order of precedence -/
 def defects (rq : Req) : List Defect :=
